@@ -49,7 +49,10 @@ def gophermap_ref(text: bytes, dirsel: bytes, relative_ok: bool = True) -> typin
 
 def gen_map(rng, existing: typing.List[bytes], allow_relative: bool) -> bytes:
     lines = []
-    for _ in range(rng.randrange(0, 30)):
+    nlines = rng.randrange(0, 30)
+    if rng.random() < 0.04:
+        nlines = rng.randrange(600, 900)      # a long gophermap (well beyond 20 KB)
+    for _ in range(nlines):
         r = rng.random()
         name = rng.choice(WORDS) + b" %d" % rng.randrange(100)
         if r < 0.2:
